@@ -558,9 +558,10 @@ static void run_dump(const Case& c) {
 // "For any start address", "independent of how the data is split across iovecs" has no size limit: sizes are size_t /
 // uint64_t in every signature. A dump of several GiB is cheap to REQUEST because iovecs may alias: thousands of iovecs
 // that all point at one block of about 1 MiB. Two ways to look at such a dump without producing gigabytes of text:
-//   head   - the callback overload; the callback throws once the first K lines are complete (no terminal guard object
-//            is alive between two lines, so nothing else runs during the unwinding). The K lines must be what the
-//            column decoder expects for the first K x 16 addresses, whatever lies behind them.
+//   head   - the callback overload; the callback throws once at least K lines are complete and the output ends with a
+//            line end (no terminal guard object is alive between two lines, so nothing else runs during the
+//            unwinding). The first K lines must be what the column decoder expects for the first K x 16 addresses,
+//            whatever lies behind them.
 //   sparse - COLLAPSE_ZERO_LINES over a zero background (one aliased zero block) with a few short islands of non-zero
 //            bytes at chosen distances from the start and from the end (around 2^31 and 2^32 in particular): the
 //            output is the first line, the last line and the lines that touch an island, all decoded and compared.
@@ -672,10 +673,19 @@ static void run_bigdump(const Case& c) {
     size_t nl = 0;
     try {
       phosg::format_data([&](const void* p, size_t n) {
+        // how the output is cut into callback calls is the dumper's business (per field, per line, ...): count the
+        // line ends wherever they come
         out.append(static_cast<const char*>(p), n);
-        if (n == 1 && *static_cast<const char*>(p) == '\n' && ++nl >= want) throw StopDump();
+        nl += static_cast<size_t>(std::count(static_cast<const char*>(p), static_cast<const char*>(p) + n, '\n'));
+        if (nl >= want && n && static_cast<const char*>(p)[n - 1] == '\n') throw StopDump();
       }, iv.data(), iv.size(), b.start, nullptr, 0, b.flags);
     } catch (const StopDump&) {
+    }
+    {
+      // keep the first `want` lines (a dumper that hands over several lines per call has delivered more)
+      size_t pos = 0, seen = 0;
+      while (seen < want && (pos = out.find('\n', pos)) != string::npos) pos++, seen++;
+      if (seen == want && pos != string::npos) out.resize(pos);
     }
     vector<u128> addrs;
     for (u128 la = first_line; la <= last_line && addrs.size() < want; la += 16) addrs.push_back(la);
